@@ -30,24 +30,31 @@ from .. import valgen
 import sym_metanet as M
 
 P_SETS = [MODEL_PARAMS[0], MODEL_PARAMS[2]]
-ALLPOS = {"positive_init_speed": True, "positive_init_density": True, "positive_init_queue": True,
-          "positive_next_speed": True, "positive_next_density": True, "positive_next_queue": True}
+INIT_POS = {"positive_init_speed": True, "positive_init_density": True, "positive_init_queue": True}
+NEXT_POS = {"positive_next_speed": True, "positive_next_density": True, "positive_next_queue": True}
+ALLPOS = dict(INIT_POS, **NEXT_POS)
 
-SPEC0 = NetSpec(3, (LinkS(0, 1, 2, 3, 1.0, 180.0, 33.5, 102.0, 1.867, 1.0, (1,), 0.1),
-                    LinkS(1, 2, 2, 2, 0.8, 170.0, 30.0, 110.0, 2.1, 3.0)),
-                (OriginS(0, "ramp_out", 2000.0),), (DestS(2, "cong"),))
-SPEC1 = NetSpec(4, SPEC0.links + (LinkS(1, 3, 1, 2, 1.3, 190.0, 36.0, 95.0, 1.6, 0.5),),
-                SPEC0.origins, SPEC0.dests + (DestS(3, "free"),))
+_L0 = LinkS(0, 1, 2, 3, 1.0, 180.0, 33.5, 102.0, 1.867, 1.0, (1,), 0.1)
+_L1 = LinkS(1, 2, 2, 2, 0.8, 170.0, 30.0, 110.0, 2.1, 3.0)
+_L2 = LinkS(1, 3, 1, 2, 1.3, 190.0, 36.0, 95.0, 1.6, 0.5)
 
-ELEMS = ["L0", "L1", "O0", "D2", "L2"]
+
+def spec_for(spare, congest):
+    links = (_L0, _L1) + ((_L2,) if spare else ())
+    dests = (DestS(2, "cong" if congest else "free"),) + ((DestS(3, "free"),) if spare else ())
+    return NetSpec(4 if spare else 3, links, (OriginS(0, "ramp_out", 2000.0),), dests)
+
+
+SPEC_FULL = spec_for(True, True)
+ELEMS = ["L0", "L1", "O0", "D2", "L2"]  # D2 = the congested destination that may replace the free one
 STATEFUL = ["L0", "L1", "O0", "L2"]
 
 
-def deps(e, spare):
+def deps(e, spare, congest):
     if e == "L0":
         return ["L0", "O0", "L1"] + (["L2"] if spare else [])
     if e == "L1":
-        return ["L1", "L0", "D2"]
+        return ["L1", "L0"] + (["D2"] if congest else [])
     if e == "O0":
         return ["O0", "L0"]
     if e == "L2":
@@ -55,20 +62,26 @@ def deps(e, spare):
     return [e]
 
 
-OPS = ([("init", e) for e in ("L0", "L1", "O0", "D2")] + [("step", e) for e in ("L0", "L1", "O0")]
-       + [("netstep", p, o) for p in (0, 1) for o in (0, 1)] + [("spare",), ("init", "L2"), ("step", "L2")])
+OPS = ([("init", e) for e in ("L0", "L1", "O0")] + [("step", e) for e in ("L0", "L1", "O0")]
+       + [("netstep", p, o) for p in (0, 1) for o in (0, 1)]
+       + [("spare",), ("init", "L2"), ("step", "L2"), ("congest",), ("init", "D2")])
 
 
 class Model:
     def __init__(self):
         self.spare = False
+        self.congest = False
         self.gen = {e: 0 for e in ELEMS}  # 0 = uninitialised
         self.clamped = {e: False for e in ELEMS}
-        self.stepped = {e: None for e in STATEFUL}  # (spare, pidx, opts, {dep: gen})
+        self.stepped = {e: None for e in STATEFUL}  # (spare, congest, pidx, next_clamp, {dep: (gen, clamped)})
         self._g = 0
 
     def in_net(self, e):
-        return self.spare or e != "L2"
+        if e == "L2":
+            return self.spare
+        if e == "D2":
+            return self.congest
+        return True
 
     def enabled(self, op):
         k = op[0]
@@ -76,10 +89,16 @@ class Model:
             return self.in_net(op[1])
         if k == "step":
             e = op[1]
-            return self.in_net(e) and all(self.gen[x] > 0 for x in deps(e, self.spare))
+            return self.in_net(e) and all(self.gen[x] > 0 for x in deps(e, self.spare, self.congest))
         if k == "spare":
             return not self.spare
+        if k == "congest":
+            return not self.congest
         return True
+
+    def _record(self, e, pidx, nxt):
+        self.stepped[e] = (self.spare, self.congest, pidx, nxt,
+                           {x: (self.gen[x], self.clamped[x]) for x in deps(e, self.spare, self.congest)})
 
     def apply(self, op):
         k = op[0]
@@ -88,26 +107,28 @@ class Model:
             self.gen[op[1]] = self._g
             self.clamped[op[1]] = False
         elif k == "step":
-            e = op[1]
-            self.stepped[e] = (self.spare, 0, 0, {x: self.gen[x] for x in deps(e, self.spare)})
+            # calling an element's own step uses that method's defaults: Link.step_dynamics clamps the next
+            # SPEED by default (positive_next_speed=True), nothing else
+            self._record(op[1], 0, (op[1].startswith("L"), False, False))
         elif k == "netstep":
             for e in ELEMS:
                 if self.in_net(e):
                     self._g += 1
                     self.gen[e] = self._g
-                    self.clamped[e] = bool(op[2])
+                    self.clamped[e] = bool(op[2]) and e != "D2"
             for e in STATEFUL:
                 if self.in_net(e):
-                    self.stepped[e] = (self.spare, op[1], op[2], {x: self.gen[x] for x in deps(e, self.spare)})
+                    self._record(e, op[1], (bool(op[2]),) * 3)
         elif k == "spare":
             self.spare = True
+        elif k == "congest":
+            self.congest = True
 
     def stale(self, e):
         s = self.stepped[e]
-        return s is not None and any(self.gen[x] != g for x, g in s[3].items())
+        return s is not None and any(self.gen[x] != g for x, (g, c) in s[4].items())
 
     def verdict(self):
-        """'raise' | 'function'"""
         for e in ELEMS:
             if self.in_net(e) and self.gen[e] == 0:
                 return "raise", f"{e} not initialised"
@@ -120,8 +141,7 @@ class Model:
         return "function", ""
 
     def key(self):
-        # canonical: generations only matter through equality with the recorded ones
-        k = [self.spare]
+        k = [self.spare, self.congest]
         for e in ELEMS:
             k.append((self.gen[e] > 0, self.clamped[e]))
         for e in STATEFUL:
@@ -129,15 +149,16 @@ class Model:
             if s is None:
                 k.append(None)
             else:
-                k.append((s[0], s[1], s[2], tuple(sorted((x, self.gen[x] == g) for x, g in s[3].items()))))
+                k.append((s[0], s[1], s[2], s[3], tuple(sorted((x, self.gen[x] == g, c) for x, (g, c) in s[4].items()))))
         return tuple(k)
 
 
 def real_setup(sym):
-    obj = make_elements(SPEC1)
+    obj = make_elements(SPEC_FULL)
+    obj["D2free"] = M.Destination(name="D2free")
     net = M.Network(name="net")
     n = [obj[f"n{i}"] for i in range(4)]
-    net.add_path((n[0], obj["L0"], n[1], obj["L1"], n[2]), origin=obj["O0"], destination=obj["D2"])
+    net.add_path((n[0], obj["L0"], n[1], obj["L1"], n[2]), origin=obj["O0"], destination=obj["D2free"])
     eng = env.casadi_engine(sym)
     return net, obj, eng
 
@@ -153,22 +174,42 @@ def real_apply(net, obj, eng, op):
     elif k == "spare":
         net.add_link(obj["n1"], obj["L2"], obj["n3"])
         net.add_destination(obj["D3"], obj["n3"])
+    elif k == "congest":
+        net.add_destination(obj["D2"], obj["n2"])
 
 
+def _vector():
+    v = valgen.base_vector(SPEC_FULL, 0)
+    v[("L0", "v")] = [v[("L0", "v")][0], -v[("L0", "v")][1]]
+    v[("L1", "v")] = [-v[("L1", "v")][0], v[("L1", "v")][1]]
+    v[("L1", "rho")] = [v[("L1", "rho")][0], -v[("L1", "rho")][1]]
+    v[("O0", "w")] = [-v[("O0", "w")][0]]
+    v[("L2", "v")] = [-v[("L2", "v")][0]]
+    return v
+
+
+VAL = _vector()
 _TWIN = {}
 
 
-def twin_next(spare, pidx, opts, val):
-    key = (spare, pidx, opts)
+def twin_next(e, info):
+    """Expected next state of element e under its most recent step: NumPy step of a twin network with the
+    topology of that moment, inputs of the dependencies clamped where their states were clamped expressions."""
+    spare, congest, pidx, nxt, depinfo = info
+    key = (e, spare, congest, pidx, nxt, tuple(sorted((x, c) for x, (g, c) in depinfo.items())))
     if key not in _TWIN:
-        spec = SPEC1 if spare else SPEC0
-        v = {k: x for k, x in val.items() if spare or k[0] != "L2"}
-        nxt, _, _ = np_step(spec, v, P_SETS[pidx], opts=(ALLPOS if opts else None))
-        _TWIN[key] = nxt
+        spec = spec_for(spare, congest)
+        have = {(k, v) for k, v, n, r in spec.variables()}
+        val = {}
+        for kv, lst in VAL.items():
+            if kv not in have:
+                continue
+            c = depinfo.get(kv[0], (0, False))[1]
+            val[kv] = [max(0.0, x) for x in lst] if (c and kv[1] in ("rho", "v", "w")) else list(lst)
+        opts = {n: True for n, on in zip(("positive_next_speed", "positive_next_density", "positive_next_queue"), nxt) if on}
+        out, _, _ = np_step(spec, val, P_SETS[pidx], opts=opts)
+        _TWIN[key] = {kv: lst for kv, lst in out.items() if kv[0] == e}
     return _TWIN[key]
-
-
-VAL = valgen.base_vector(SPEC1, 0)
 
 
 def run_history(hist, sym, st: Stats):
@@ -211,11 +252,12 @@ def run_history(hist, sym, st: Stats):
         if free:
             problems.append(("C19/free-symbols", f"{sym}: returned function has free symbols {free}"))
         else:
-            spec = SPEC1 if model.spare else SPEC0
+            spec = spec_for(model.spare, model.congest)
             b = type("B", (), {})()
             b.spec, b.obj = spec, obj
             comp = Compiled(F, b)
-            val = {k: x for k, x in VAL.items() if model.spare or k[0] != "L2"}
+            have = {(k, v) for k, v, n, r in spec.variables()}
+            val = {k: x for k, x in VAL.items() if k in have}
             try:
                 out = comp.eval_many([val])[0]
             except Exception as e:  # noqa: BLE001
@@ -224,18 +266,22 @@ def run_history(hist, sym, st: Stats):
             for e_ in STATEFUL:
                 if not model.in_net(e_):
                     continue
-                sp, pidx, opts, _ = model.stepped[e_]
-                exp = twin_next(sp, pidx, opts, VAL)
+                info = model.stepped[e_]
+                exp = twin_next(e_, info)
                 for (key, var), arr in out.items():
                     if key != e_:
                         continue
                     for j, x in enumerate(arr):
                         st.inc("components_compared")
-                        if not close(float(x), exp[(key, var)][j]):
+                        y = exp[(key, var)][j]
+                        if y != y:
+                            continue  # NaN in the twin (negative density under a power): max(0, NaN) is engine-defined
+                        if not close(float(x), y):
                             problems.append((f"C19/not-most-recent-step/{e_}",
-                                             f"{sym}: next {var}[{j}] of {key} = {float(x)!r}; its most recent step "
-                                             f"(P set {pidx}, options {'on' if opts else 'off'}, spare link {'present' if sp else 'absent'}) "
-                                             f"gives {exp[(key, var)][j]!r}"))
+                                             f"{sym}: next {var}[{j}] of {key} = {float(x)!r}; its most recent step (P set {info[2]}, "
+                                             f"next-clamps (speed, density, queue) {info[3]}, spare link {'present' if info[0] else 'absent'}, "
+                                             f"congested destination {'present' if info[1] else 'absent'}, clamped inputs "
+                                             f"{sorted(x_ for x_, (g, c) in info[4].items() if c)}) gives {y!r}"))
                             break
     return problems, model
 
@@ -324,7 +370,7 @@ def explore(tier, seed, nproc):
         st.inc("states", n)
     cov = {"operations": len(OPS), "unmerged_history_length_completed": kmax, "unmerged_histories": per_len,
            "merged_bfs": merged,
-           "rule": "every history over the 14 operations up to the length (those using a disabled operation are dropped and "
+           "rule": "every history over the 16 operations up to the length (those using a disabled operation are dropped and "
                    "counted), replayed on fresh real objects, to_function observed in the reached state; plus BFS with states "
                    "merged on the model key"}
     assumptions = [
